@@ -11,6 +11,7 @@ CONSTANTS
   TracerStyles = {"none"}
   Threadeds = {FALSE}
   Givens = {}
+  Blockeds = {"none"}
   Flags = {"phantom_line"}
 INVARIANT Restored
 INVARIANT Contained
